@@ -458,6 +458,15 @@ func (ctx *Context) evaluate() {
 		e.top += 1
 	}
 
+	// 骰点指令的操作数来自用户表达式，类型不对时应报错而不是panic
+	readDiceInt := func(v *VMValue) (IntType, bool) {
+		val, ok := v.ReadInt()
+		if !ok {
+			ctx.Error = errors.New("E6: 类型错误, 骰点参数必须为整数，不能为 " + v.GetTypeName())
+		}
+		return val, ok
+	}
+
 	getRollMode := func() int {
 		if ctx.Config.DiceMinMode {
 			return -1
@@ -952,7 +961,10 @@ func (ctx *Context) evaluate() {
 
 		case typeDiceCocBonus, typeDiceCocPenalty:
 			t := stackPop()
-			diceNum := t.MustReadInt()
+			diceNum, ok := readDiceInt(t)
+			if !ok {
+				return
+			}
 			if diceNum < 0 {
 				ctx.Error = errors.New("奖励骰/惩罚骰个数不能为负数")
 				return
@@ -979,30 +991,47 @@ func (ctx *Context) evaluate() {
 			wodInit()
 		case typeWodSetPoints:
 			v := stackPop()
-			// if v.TypeId != VMTypeInt {
-			//   // ...
-			// }
-			wodState.points = v.MustReadInt()
+			val, ok := readDiceInt(v)
+			if !ok {
+				return
+			}
+			wodState.points = val
 		case typeWodSetThreshold:
 			v := stackPop()
-			wodState.threshold = v.MustReadInt()
+			val, ok := readDiceInt(v)
+			if !ok {
+				return
+			}
+			wodState.threshold = val
 			wodState.isGE = true
 		case typeWodSetThresholdQ:
 			v := stackPop()
-			wodState.threshold = v.MustReadInt()
+			val, ok := readDiceInt(v)
+			if !ok {
+				return
+			}
+			wodState.threshold = val
 			wodState.isGE = false
 		case typeWodSetPool:
 			v := stackPop()
-			wodState.pool = v.MustReadInt()
+			val, ok := readDiceInt(v)
+			if !ok {
+				return
+			}
+			wodState.pool = val
 		case typeDiceWod:
 			v := stackPop() // 加骰线
-
-			// 变量检查
-			if !wodCheck(ctx, v.MustReadInt(), wodState.pool, wodState.points, wodState.threshold) {
+			addLine, ok := readDiceInt(v)
+			if !ok {
 				return
 			}
 
-			num, _, _, detailText := RollWoD(ctx.RandSrc, v.MustReadInt(), wodState.pool, wodState.points, wodState.threshold, wodState.isGE, getRollMode())
+			// 变量检查
+			if !wodCheck(ctx, addLine, wodState.pool, wodState.points, wodState.threshold) {
+				return
+			}
+
+			num, _, _, detailText := RollWoD(ctx.RandSrc, addLine, wodState.pool, wodState.points, wodState.threshold, wodState.isGE, getRollMode())
 			ret := NewIntVal(num)
 			details[len(details)-1].Ret = ret
 			details[len(details)-1].Text = detailText
@@ -1014,16 +1043,28 @@ func (ctx *Context) evaluate() {
 			dcInit()
 		case typeDCSetPool:
 			v := stackPop()
-			dcState.pool = v.MustReadInt()
-		case typeDCSetPoints:
-			v := stackPop()
-			dcState.points = v.MustReadInt()
-		case typeDiceDC:
-			v := stackPop() // 暴击值 / 也可以理解为加骰线
-			if !doubleCrossCheck(ctx, v.MustReadInt(), dcState.pool, dcState.points) {
+			val, ok := readDiceInt(v)
+			if !ok {
 				return
 			}
-			success, _, _, detailText := RollDoubleCross(ctx.RandSrc, v.MustReadInt(), dcState.pool, dcState.points, getRollMode())
+			dcState.pool = val
+		case typeDCSetPoints:
+			v := stackPop()
+			val, ok := readDiceInt(v)
+			if !ok {
+				return
+			}
+			dcState.points = val
+		case typeDiceDC:
+			v := stackPop() // 暴击值 / 也可以理解为加骰线
+			addLine, ok := readDiceInt(v)
+			if !ok {
+				return
+			}
+			if !doubleCrossCheck(ctx, addLine, dcState.pool, dcState.points) {
+				return
+			}
+			success, _, _, detailText := RollDoubleCross(ctx.RandSrc, addLine, dcState.pool, dcState.points, getRollMode())
 			ret := NewIntVal(success)
 			details[len(details)-1].Ret = ret
 			details[len(details)-1].Text = detailText
